@@ -206,6 +206,28 @@ Section Grid.
   (** equality of (shape, affine) *)
   Definition shape_aff_eq (g h : geobox) : Prop :=
     gny g = gny h /\ gnx g = gnx h /\ aff_eq (gaff g) (gaff h).
+
+  (** grids derived from [base] by an arbitrary (sub-pixel) translation of the pixel plane *)
+  Definition on_grid_q (base : aff) (g : geobox) (tx ty : Q) : Prop :=
+    aff_eq (gaff g) (aff_mul base (aff_tr tx ty)).
+
+  (** the decision rule of the compatibility test, as mathematics *)
+  Definition close_to (atol rtol a b : Q) : Prop := Qabs (a - b) <= atol + rtol * Qabs b.
+  Definition rel_aff (a ref : geobox) : aff := aff_mul (aff_inv (gaff ref)) (gaff a).
+  Definition lin_close (atol rtol : Q) (m : aff) : Prop :=
+    close_to atol rtol (aa m) 1 /\ close_to atol rtol (ab m) 0 /\
+    close_to atol rtol (ad m) 0 /\ close_to atol rtol (ae m) 1.
+  Definition near_int (tol x : Q) : Prop := exists n : Z, Qabs (x - inject_Z n) < tol.
+  Definition compatible (atol rtol tol : Q) (a ref : geobox) : Prop :=
+    tag_ne crs_eqb (gcrs a) (gcrs ref) = false /\ ~ aff_det (gaff ref) == 0 /\
+    lin_close atol rtol (rel_aff a ref) /\
+    near_int tol (ac (rel_aff a ref)) /\ near_int tol (af (rel_aff a ref)).
+
+  (** world bounding boxes: coordinate-wise equality and containment *)
+  Definition box_eq (u v : qbox) : Prop :=
+    bl u == bl v /\ bb_ u == bb_ v /\ br u == br v /\ bt u == bt v.
+  Definition box_le (a u : qbox) : Prop :=   (* a is contained in u *)
+    bl u <= bl a /\ bb_ u <= bb_ a /\ br a <= br u /\ bt a <= bt u.
 End Grid.
 
 Arguments mkGB {crs} _ _ _ _.
@@ -228,5 +250,10 @@ Arguments qbox_and {crs} _ _ _.
 Arguments gbox_or {crs} _ _ _ _ _ _.
 Arguments gbox_and {crs} _ _ _ _ _ _.
 Arguments same_crs {crs} _ _.
+Arguments on_grid_q {crs} _ _ _ _.
+Arguments rel_aff {crs} _ _.
+Arguments compatible {crs} _ _ _ _ _ _.
+Arguments box_eq {crs} _ _.
+Arguments box_le {crs} _ _.
 Arguments shape_aff_eq {crs} _ _.
 Arguments fam {crs} _ _ _.
